@@ -39,32 +39,24 @@ def r07_2(ctx: Ctx) -> None:
     var = txt(loop.target)
     # accumulators: names defined before the outermost loop and mutated inside the rule loop
     outer = enclosing_loops(loop, stop=func)
-    stores = []
-    for call in calls(loop):
-        if isinstance(call.func, ast.Attribute) and call.func.attr in ("add", "update", "append", "extend") \
-                and isinstance(call.func.value, ast.Subscript):
-            stores.append(call)
-    for node in walk_local(loop):
-        if isinstance(node, ast.Assign):
-            for target in node.targets:
-                if isinstance(target, ast.Subscript) and isinstance(target.value, ast.Subscript):
-                    stores.append(node)
+    from ..flow import subscript_stores
+    stores = [(site, subject) for site, subject in subscript_stores(func, loop)]
     if len(stores) < 4:
         raise AnalysisError("apply_cluster_rules: accumulator stores inside the rule loop not found")
-    for index, store in enumerate(stores):
-        subject = store.func.value if isinstance(store, ast.Call) else store.targets[0]  # type: ignore[attr-defined]
+    for index, (store, subject) in enumerate(stores):
         keys = []
         cur = subject
         while isinstance(cur, ast.Subscript):
             keys.append(txt(cur.slice))
             cur = cur.value
         root = txt(cur)
-        created_outside = not any(isinstance(n, (ast.Assign, ast.AnnAssign)) and root in txt(getattr(n, "targets", [getattr(n, "target", None)])[0] if getattr(n, "targets", None) else n.target)
-                                  for lp in [loop] for n in walk_local(lp) if isinstance(n, (ast.Assign, ast.AnnAssign))
-                                  and isinstance(getattr(n, "target", None) or n.targets[0], ast.Name))
-        ok = f"{var}.name" in keys
-        if not created_outside:
+        created_inside = any(isinstance(n, (ast.Assign, ast.AnnAssign))
+                             and any(isinstance(t, ast.Name) and t.id == root
+                                     for t in (n.targets if isinstance(n, ast.Assign) else [n.target]))
+                             for n in walk_local(loop))
+        if created_inside:
             continue
+        ok = f"{var}.name" in keys
         ctx.ob("R07.2", CP, store, "apply_cluster_rules", f"store#{index} into {root}[{']['.join(reversed(keys))}]", ok,
                "every store into an output accumulator inside the rule loop is indexed by the current rule's name, so a "
                "rule cannot write another rule's slot", form=stmt_key(store))
